@@ -213,6 +213,9 @@ SCENARIOS = {
     # several consumers of one channel: the test-and-pop of a subscription must be one atomic step
     "2sub-same-channel": dict(programs=[["c"]], patterns=["c", "c"], pre=["c", "c", "c"]),
     "exact-and-wildcard-sub": dict(programs=[["c", "d"]], patterns=["c", "*"], pre=["c", "c"]),
+    # channel names that extend one another, and glob characters: a pattern matches whole names, as fnmatch does
+    "prefix-related-names": dict(programs=[["w.1", "w.10", "w.1"], ["j.7.cfg.bak", "j.7.cfg"]], patterns=["w.1", "w.10", "j.*.cfg"], pre=["w.10"]),
+    "glob-classes": dict(programs=[["a1", "a2", "b1"]], patterns=["a?", "[b]1"], pre=[]),
 }
 
 
@@ -318,7 +321,7 @@ def run(tier: str) -> int:
     files = {M.__file__}
     bound = 2 if tier == "quick" else 3
     per = {"new-channel-2pub-1sub": 220, "two-channels-wildcard": 120, "existing-channel": 80, "pattern-routing": 80,
-           "2sub-same-channel": 160, "exact-and-wildcard-sub": 100} if tier == "quick" else \
+           "2sub-same-channel": 160, "exact-and-wildcard-sub": 100, "prefix-related-names": 40, "glob-classes": 20} if tier == "quick" else \
           {k: 1500 for k in SCENARIOS}
     stats = {"executions": 0, "distinct_schedules": 0, "by_scenario": {}, "max_points": 0, "preemption_bound": bound,
              "timeouts": 0, "model_runs": 0, "model_losing": 0}
